@@ -948,7 +948,7 @@ reg('C02', run_C02, ['Prop_C02.v'], I6RULE + 'non-trivial = distinct (grammar, s
     level_note=MODEL_NOTE + ' Hypothesis of C02_complete: grammar well-formedness facts and productivity (first of every sequence non-empty), established by yaccgo\'s own checks (C12).')
 reg('C03', run_C03, ['Prop_C03.v'], BERULE + 'non-trivial = grammars with >= 2 reductions one of which has >= 2 lookaheads; plus the real Digraph on random relations with cycles',
     technique='Coq theorem (executable DeRemer-Pennello sets = LR(1) lookaheads over all access paths, both inclusions) + comparison of the implementation\'s LA sets and warnings with the proved model on every corpus grammar',
-    level_text="Proved in Coq (C03_lookahead): for every grammar meeting the well-formedness facts, the model's lookahead list of every reduction in every state equals {t | exists access path gamma to the state with the LR(1) item [A -> alpha ., t] valid for gamma}, i.e. the union over the canonical LR(1) states with that core; the same for the lookahead sets the model pipeline actually computes and feeds to the table generator (C03_pipeline); C03_warning: a warning is raised exactly when a pair met by the pairwise resolution lacks a precedence. The implementation's LA sets and warning multiset are compared with the model on every corpus grammar; the real Digraph/Traverse/Union runs against transitive union on random relations with cycles (slices built as yaccgo builds them).",
+    level_text="Proved in Coq (C03_lookahead): for every grammar meeting the well-formedness facts, the model's lookahead list of every reduction in every state equals {t | exists access path gamma to the state with the LR(1) item [A -> alpha ., t] valid for gamma}, i.e. the union over the canonical LR(1) states with that core; the same for the lookahead sets the model pipeline actually computes and feeds to the table generator (C03_pipeline); a warning is recorded for a cell of the pipeline's tables exactly when its candidate actions - the shift and the reductions whose lookahead set contains the symbol - meet a pair in the pairwise resolution that lacks a precedence, and such a cell has at least two candidates, i.e. is an LALR(1) conflict (C03_warning, C03_warning_pipeline, C03_warning_needs_conflict). The implementation's LA sets and warning multiset are compared with the model on every corpus grammar; the real Digraph/Traverse/Union runs against transitive union on random relations with cycles (slices built as yaccgo builds them).",
     level_note=MODEL_NOTE + ' Digraph is modelled as transitive union (saturation), the SCC bookkeeping of Traverse is tied by the differential run only.')
 reg('C04', run_C04, ['Prop_C04.v'], BERULE + 'non-trivial = grammars with precedence declarations; plus every pair of the finite (type, prec, assoc, index) grid through ResolveConflict/UseDefaultResolveConflict',
     technique='Coq theorems by case analysis on the resolution function + exhaustive differential run of the exported ResolveConflict/UseDefaultResolveConflict + dense-cell comparison with the model',
